@@ -428,3 +428,18 @@ define void @h() !dbg !6 {
 !4 = !DIDerivedType(tag: DW_TAG_typedef, name: "B", file: !2, baseType: !6)
 !5 = !DICompositeType(tag: DW_TAG_class_type, name: "D", file: !2, size: 64, vtableHolder: !4, identifier: "_ZTS1D")
 !6 = !DICompositeType(tag: DW_TAG_class_type, name: "Base", file: !2, size: 64, vtableHolder: !6, identifier: "_ZTS4Base")
+;;; ATOM md/tuples-inline-in-several-entities
+@g = global i32 0, !note !{!"g", i32 1}
+@h = global i32 1, !note !{!"h", !{!"nested", !0}}
+declare !note !{!"decl"} void @d()
+define void @f() !note !{!"f", !{}} {
+  %v = load i32, i32* @g, !range !{i32 0, i32 2}
+  %w = load i32, i32* @h, !range !{i32 5, i32 9}, !note !{!{!{!"deep"}}, !0}
+  ret void, !note !{!{!"a"}, !0}
+}
+define void @k() !note !{!"k"} {
+  ret void, !note !{!{!DIExpression()}, !0, !{!DIExpression(DW_OP_deref)}}
+}
+!nm = !{!0, !1, !0}
+!0 = !{!"numbered", !{!"inline-in-numbered", !{!1}}}
+!1 = !{!{!DIExpression()}, !"tail"}
